@@ -341,6 +341,20 @@ pub fn run(ctx: &Ctx) {
         v
     }, check_call);
 
+    let big: Vec<usize> = ctx.tier.pick(vec![255usize, 256, 257, 4095, 4096, 4097, 8191, 8192, 8193, 16384, 32767, 32768, 65535, 65536, 65537, 100_000], vec![255usize, 256, 257, 4095, 4096, 4097, 8191, 8192, 8193, 16384, 32767, 32768, 65535, 65536, 65537, 100_000, (1 << 20) + 1, (1 << 22) + 3]);
+    ctx.exhaustive("large_inputs", "every entry point x inputs of 255, 256, 257, 4095..4097, 8191..8193, 16384, 32767, 32768, 65535..65537, 100000 bytes (thorough: also 2^20+1, 2^22+3) x 2 fills (the letter 'a', pseudo-random): limits stated in bits or held in 16-bit fields, buffer caps", move || {
+        let mut v = Vec::new();
+        for e in ENTRIES {
+            for len in big.iter() {
+                for fill in 0..2u8 {
+                    let input = if fill == 0 { vec![b'a'; *len] } else { expand_bytes((*len as u64) << 8 | hash64(e) & 0xff, *len) };
+                    v.push(Call { entry: e.to_string(), input: Hex(input) });
+                }
+            }
+        }
+        v
+    }, check_call);
+
     ctx.exhaustive("truncations_and_corruptions", "every truncation and every single-byte corruption (4 kinds) of a valid artefact, for each entry that has one", || {
         let mut v = Vec::new();
         for e in ENTRIES {
